@@ -281,3 +281,12 @@ func sortSliceIntrinsic(fr *frame, a []value) value {
 	}
 	return nil
 }
+
+func init() {
+	register(map[string]externalFn{
+		"github.com/google/uuid.NewString": func(fr *frame, a []value) value {
+			fr.i.uuidSeq++
+			return fmt.Sprintf("00000000-0000-4000-8000-%012d", fr.i.uuidSeq)
+		},
+	})
+}
